@@ -108,8 +108,10 @@ impl<F: AsFd, E> Generic<F, E> {
     }
     /// What `unregister` guarantees beyond the trait contract (same arrangement).
     pub open spec fn unregister_post(o: &Self, n: &Self, p: &Poll, ok: bool) -> bool {
-        // C16: Ok means the wrapped fd HAS been deleted from the OS poller
-        &&& ok ==> p.pl().w_deleted(o.raw())
+        // C16: Ok means the wrapped fd HAS been deleted from the OS poller (for a source that held a registration: what a
+        // source without one answers is not the property's business, as long as it leaves the poller alone -- the may-call
+        // side of the slice)
+        &&& (ok && o.tok() is Some) ==> p.pl().w_deleted(o.raw())
         &&& n.raw() == o.raw()
     }
 }
